@@ -319,8 +319,8 @@ def evaluate(ctx, binp, cases, tag, shard=None):
     """implementation + Coq. returns (by_id, M, V, NT ids)"""
     # the whole batch takes a few seconds; a driver that hangs (only possible on a changed tree) is reported after
     # this generous limit as "correspondence could not run"
-    rc, res, raw = vlib.run_json(binp, {"cases": [to_driver(c, i) for i, c in enumerate(cases)]},
-                                 timeout=max(120, len(cases) // 50))
+    rc, res, raw, _loud = vlib.run_json_verbose_share(ctx, binp, {"cases": [to_driver(c, i) for i, c in enumerate(cases)]},
+                                                      timeout=max(120, len(cases) // 50))
     if res is None:
         raise vlib.GoBuildError("./cmd/c19 (run)", raw[-3000:])
     outs = res["outs"]
